@@ -77,6 +77,7 @@ pub struct Obs {
     pub res: String,
     pub range: Option<(usize, usize, usize, usize)>,
     pub snap: Snap,
+    pub memhash: u64,
 }
 
 pub struct H {
@@ -110,6 +111,8 @@ pub struct Mode {
     pub count_unmount: bool,
     /// C08: fill every allocation with non-zero bytes right after it is checked
     pub dirty: bool,
+    /// record a hash of memory() in every observation
+    pub memhash: bool,
 }
 
 pub struct World<A: Flavor> {
@@ -604,7 +607,8 @@ impl<A: Flavor> World<A> {
         let post = self.snap();
         self.check_invariants(&post)?;
         if self.mode.trace {
-            self.trace.push(Obs { op: ix, res, range, snap: post });
+            let memhash = if self.mode.memhash { crate::runner::fnv(self.mem()) } else { 0 };
+            self.trace.push(Obs { op: ix, res, range, snap: post, memhash });
         }
         Ok(())
     }
